@@ -26,7 +26,7 @@ theorem mirror_symbol_roundtrip_partial {K : Kernels} (hK : KernelsOK K) (T : Ta
     ∃ mask M, backHalf K v ec forced payload = .ok (mask, M) ∧
       decode T rsQR hint (modulesOf M) =
         .ok ⟨parsed, toDecEC ec, v, QRRef.terminate (QRRef.dataCodewords v ec) payload, false⟩ := by
-  refine ⟨_, _, Gzx.Properties.C07Mirror.mirror_encode_eq_ref_partial hK v h1 h40 hf ec forced hforced payload hfit, ?_⟩
+  refine ⟨_, _, backHalf_eq_ref hK v h1 h40 hf ec forced hforced payload hfit, ?_⟩
   unfold modulesOf
   rw [Gzx.Properties.C07Mirror.refByteMatrix_modules]
   have hm : forced.getD (QRRef.chooseMask v ec (refCodewords v ec payload)) < 8 := by
